@@ -49,7 +49,7 @@ def smap_none(n):
 
 
 def with_sizes(c, mode, pat="het"):
-    """mode: none | fixed | all | some | nomap | fixed+some | fixed+all"""
+    """mode: none | fixed | all | some | nomap | fixed+some | fixed+all | fixed+zero"""
     n = c["n"]
     c = dict(c)
     if mode == "none":
@@ -68,6 +68,12 @@ def with_sizes(c, mode, pat="het"):
     elif mode == "fixed+all":
         c["fixed"] = [6, 4]
         c["smap"] = smap_all(n, pat)
+    elif mode == "fixed+zero":
+        # a fixed size for everybody, and a map that LISTS every third node with an explicit size of 0 x 0 (and the node after
+        # it with a size that is zero in one dimension only): "listed with size zero" is not "not listed"
+        c["fixed"] = [6, 4]
+        p = SIZE_PATTERNS[pat]
+        c["smap"] = [[1, 0, 0] if i % 3 == 0 else ([1, 0, p[i % len(p)][1] + 1] if i % 3 == 1 else [0, 0, 0]) for i in range(n)]
     else:
         raise ValueError(mode)
     return c
@@ -219,6 +225,56 @@ def staircase(k, side_first=True, fan=1):
         spine = [(i, i + 1)]
         edges += (side + spine) if side_first else (spine + side)
     return canon(edges)
+
+
+def parallel_paths(rng, lengths, pendants=0, shuffle=True, start_first=None):
+    """two-terminal series-parallel skeleton: paths with the given numbers of INNER nodes from s to t (0 = the edge s -> t), plus
+    pendant leaves hung on random nodes.  The layerer has to stretch the short paths: their inner nodes have equal in- and
+    out-degree, so they are exactly the nodes that the balancing step of the network simplex moves around"""
+    edges, nid = [], 2          # 0 = s, 1 = t
+    for ln in lengths:
+        prev = 0
+        for _ in range(ln):
+            edges.append((prev, nid))
+            prev = nid
+            nid += 1
+        edges.append((prev, 1))
+    for _ in range(pendants):
+        a = rng.randrange(nid)
+        edges.append((a, nid) if rng.random() < 0.5 else (nid, a))
+        nid += 1
+    if shuffle:
+        rng.shuffle(edges)
+    if start_first is not None:
+        # list an edge of the chosen path first: the first node of the edge list roots the spanning tree
+        edges.sort(key=lambda e: 0 if e[0] == start_first or e[1] == start_first else 1)
+    return canon(edges)
+
+
+def stretched(rng):
+    """a short path s -> .. -> t whose last node reaches x through 2-3 parallel edges, beside a long path s -> .. -> x, plus pendant
+    leaves: the simplex pulls t down with x, an edge between two balanced nodes of the short path is stretched over several
+    layers, and the balancing step may move BOTH its end nodes"""
+    e, nid = [], 2
+    prev = 0
+    for _k in range(rng.randint(2, 4)):
+        e.append((prev, nid))
+        prev = nid
+        nid += 1
+    for _m in range(rng.randint(2, 3)):
+        e.append((prev, 1))
+    prev = 0
+    for _k in range(rng.randint(4, 8)):
+        e.append((prev, nid))
+        prev = nid
+        nid += 1
+    e.append((prev, 1))
+    for _p in range(rng.randint(0, 3)):
+        a = rng.randrange(2, nid)
+        e.append((a, nid))
+        nid += 1
+    rng.shuffle(e)
+    return canon(e)
 
 
 def bipartite(a, b):
